@@ -273,6 +273,8 @@ with parse_attributes (fuel : nat) (r0 : reader) : result (reader * option (list
   end.
 
 Definition ParseAttributesModel (r : reader) : result (reader * option (list (bytes * pval))) :=
-  parse_attributes (rfuel r) r.
+  (* the mutual recursion of values and arrays spends two units per nesting level while one byte
+     is consumed: twice the length *)
+  parse_attributes (2 * rfuel r) r.
 
 End WithTables.
